@@ -31,6 +31,69 @@ EXPLANATION = (
 )
 
 
+def _add_nested_defs_as_lambdas(create, lambdas):
+    """Nested ``def f(x): <local = expr>*; return e`` is the lambda ``f = lambda x: e[locals substituted]``; a call of a
+    local function / lambda that does not itself mask (no maskindex in its body, single definition) is beta-reduced
+    inside the others, so that the pieces the algebra looks at are spelled out: z, zlog, g, ginv."""
+    import copy as _copy
+
+    class Sub(ast.NodeTransformer):
+        def __init__(self, env):
+            self.env = env
+
+        def visit_Name(self, node):
+            if node.id in self.env and isinstance(node.ctx, ast.Load):
+                return _copy.deepcopy(self.env[node.id])
+            return node
+
+    for n in ast.walk(create.node):
+        if isinstance(n, ast.FunctionDef) and n is not create.node:
+            env, ret, ok = {}, None, True
+            for st in n.body:
+                if isinstance(st, ast.Expr) and isinstance(st.value, ast.Constant):
+                    continue
+                if isinstance(st, ast.Assign) and len(st.targets) == 1 and isinstance(st.targets[0], ast.Name):
+                    env[st.targets[0].id] = Sub(dict(env)).visit(_copy.deepcopy(st.value))
+                elif isinstance(st, ast.Return) and st.value is not None and ret is None:
+                    ret = Sub(dict(env)).visit(_copy.deepcopy(st.value))
+                else:
+                    ok = False
+            if ok and ret is not None:
+                lam = ast.Lambda(args=n.args, body=ret)
+                ast.copy_location(lam, n)
+                ast.fix_missing_locations(lam)
+                lambdas.setdefault(n.name, []).append((lam, n))
+    # ``ginv = unstandardize``: a name bound to a local function is that function
+    for t, v, st, k in iter_stores(create.node):
+        if isinstance(t, ast.Name) and isinstance(v, ast.Name) and v.id in lambdas and len(lambdas[v.id]) == 1 and t.id != v.id:
+            lam0 = lambdas[v.id][0][0]
+            lambdas.setdefault(t.id, []).append((_copy.deepcopy(lam0), st))
+
+    # beta-reduce the non-masking helpers
+    def masks(lam):
+        return any(isinstance(x, ast.Call) and canon(x.func) == "maskindex" for x in ast.walk(lam.body))
+
+    helpers = {nm: v[0][0] for nm, v in lambdas.items() if len(v) == 1 and not masks(v[0][0]) and not any(isinstance(x, ast.Call) and isinstance(x.func, ast.Name) and x.func.id in lambdas for x in ast.walk(v[0][0].body))}
+
+    class Beta(ast.NodeTransformer):
+        def visit_Call(self, node):
+            self.generic_visit(node)
+            if isinstance(node.func, ast.Name) and node.func.id in helpers and not node.keywords:
+                h = helpers[node.func.id]
+                ps = [a.arg for a in h.args.args]
+                if len(ps) == len(node.args):
+                    return Sub(dict(zip(ps, node.args))).visit(_copy.deepcopy(h.body))
+            return node
+
+    if helpers:
+        for nm, lst in lambdas.items():
+            if nm in helpers:
+                continue
+            for i, (lam, st) in enumerate(lst):
+                lam.body = Beta().visit(lam.body)
+                ast.fix_missing_locations(lam)
+
+
 def _box_images(ctx, prog, T):
     """self.lb / self.ub / self.plb / self.pub are unpacked from the construction routine; each returned element must be
     ``g(self.<A>)`` with <A> an attribute that still holds the caller's bound of the same kind untouched (assigned in the
@@ -203,7 +266,7 @@ def check(ctx):
     ctx.rule("R2", "g and ginv are mutually inverse increasing maps with g(plb) = -1, g(pub) = +1", floor=8, policy="degrade")
     create = None
     for m in T.methods.values():
-        if any(isinstance(n, ast.Lambda) for n in ast.walk(m.node)) and any(isinstance(n, ast.Return) and isinstance(n.value, ast.Tuple) and len(n.value.elts) >= 6 for n in ast.walk(m.node)):
+        if any(isinstance(n, ast.Lambda) or (isinstance(n, ast.FunctionDef) and n is not m.node) for n in ast.walk(m.node)) and any(isinstance(n, ast.Return) and isinstance(n.value, ast.Tuple) and len(n.value.elts) >= 6 for n in ast.walk(m.node)):
             create = m
     if create is None:
         raise AnalysisError("the transformer method defining the g / ginv lambdas was not found")
@@ -211,6 +274,7 @@ def check(ctx):
     for t, v, s, k in iter_stores(create.node):
         if isinstance(t, ast.Name) and isinstance(v, ast.Lambda):
             lambdas.setdefault(t.id, []).append((v, s))
+    _add_nested_defs_as_lambdas(create, lambdas)
     # which names are returned as g / ginv: follow the tuple unpack in __init__
     init = T.find_method("__init__")
     gname = ginvname = None
@@ -361,7 +425,9 @@ def check(ctx):
             # branch guards
             gl = kinds["linear"][1]
             gg = kinds["log"][1]
-            ctx.check(any("(0 == apply_log_t_sum)" in x_ for x_ in gl) and any("(apply_log_t_sum == self.D)" in x_ for x_ in gg), create, kinds["linear"][0], "branch guards: sum == 0 -> linear, sum == D -> log, else mixed", f"the branch guards are {gl} / {gg}, not 'no log coordinate' / 'all log coordinates'", construct="branch guards")
+            zero_forms = ("(0 == apply_log_t_sum)", "(0 == np.sum(self.apply_log_t))", "(0 == self.apply_log_t.sum())")
+            all_forms = ("(apply_log_t_sum == self.D)", "(np.sum(self.apply_log_t) == self.D)", "(self.D == np.sum(self.apply_log_t))", "(self.D == apply_log_t_sum)")
+            ctx.check(any(z_ in x_ for x_ in gl for z_ in zero_forms) and any(a_ in x_ for x_ in gg for a_ in all_forms), create, kinds["linear"][0], "branch guards: sum == 0 -> linear, sum == D -> log, else mixed", f"the branch guards are {gl} / {gg}, not 'no log coordinate' / 'all log coordinates'", construct="branch guards")
     except Untranslatable as e:
         ctx.undecided(f"the transform lambdas use a construct the term translator does not know ({e})")
     except Exception as e:
@@ -387,7 +453,10 @@ def _rest(ctx, prog, R, T, create):
             if isinstance(t, ast.Subscript) and self_attr_of(t) == "apply_log_t":
                 cj = conjuncts(v, True)
                 pos_ok = ratio_ok = False
+                from .common import deref_expr as _dxx
+
                 for c, pol in cj:
+                    c = _dxx(prog, create, c)  # the four bounds gathered in a local first
                     cc = canon(c)
                     if "np.all(" in cc and "np.concatenate(" in cc:
                         inner = c
